@@ -1,5 +1,19 @@
 // K-CB: eviction-callback contract (C15).  Ghost state = a log of (key, value) pairs appended by the
 // callback; every operation's contract says how the log grows.
+// Non-blocking check: Kani's `assert!` assumes its condition afterwards, so the first failing conjunct of a contract
+// would hide every later one on the same path (and with it the verdicts of the other properties that harness serves).
+// `ck!` performs the check on a nondeterministically chosen side branch, so every conjunct is reported independently.
+macro_rules! ck {
+    ($c:expr, $m:literal) => {
+        if kani::any::<bool>() {
+            assert!($c, $m);
+        }
+    };
+    ($c:expr) => {
+        assert!($c)
+    };
+}
+
 use super::harness::{any_abs, build, N};
 use super::*;
 use crate::verif_hooks::spec::*;
@@ -15,7 +29,7 @@ pub struct RecCb;
 impl OnEvictCallback for RecCb {
     fn on_evict<K, V>(&self, key: &K, val: &V) {
         // K = V = u8 in every harness of this file
-        assert!(core::mem::size_of::<K>() == 1 && core::mem::size_of::<V>() == 1);
+        ck!(core::mem::size_of::<K>() == 1 && core::mem::size_of::<V>() == 1);
         unsafe {
             let k = *(key as *const K as *const u8);
             let v = *(val as *const V as *const u8);
@@ -55,10 +69,10 @@ fn cb_put() {
     let r = l.put(k, v);
     match pr_of(&r) {
         PR::Evicted(ek, ev) if pre.cap > 0 => {
-            assert!(logn() == 1 && log(0) == (ek, ev) && Some((ek, ev)) == pre.last(),
+            ck!(logn() == 1 && log(0) == (ek, ev) && Some((ek, ev)) == pre.last(),
                 "[C15.evict] capacity eviction invokes the callback exactly once with the departing key and its current value");
         }
-        _ => assert!(logn() == 0, "[C15.silent] no callback for an update, for a put with room, or for a pair that never entered"),
+        _ => ck!(logn() == 0, "[C15.silent] no callback for an update, for a put with room, or for a pair that never entered"),
     }
     core::mem::forget(l);
 }
@@ -72,8 +86,8 @@ fn cb_remove() {
     kani::cover!(!pre.has(k), "cb remove: miss");
     let r = l.remove(&k);
     match pre.val_of(k) {
-        Some(v) => assert!(logn() == 1 && log(0) == (k, v) && r == Some(v), "[C15.remove] remove invokes the callback exactly once with the removed pair"),
-        None => assert!(logn() == 0, "[C15.silent] no callback when nothing is removed"),
+        Some(v) => ck!(logn() == 1 && log(0) == (k, v) && r == Some(v), "[C15.remove] remove invokes the callback exactly once with the removed pair"),
+        None => ck!(logn() == 0, "[C15.silent] no callback when nothing is removed"),
     }
     core::mem::forget(l);
 }
@@ -86,8 +100,8 @@ fn cb_remove_lru() {
     kani::cover!(pre.n == 0, "cb remove_lru: empty");
     let _ = l.remove_lru();
     match pre.last() {
-        Some(p) => assert!(logn() == 1 && log(0) == p, "[C15.remove] remove_lru invokes the callback exactly once with the departing pair"),
-        None => assert!(logn() == 0, "[C15.silent] no callback when nothing is removed"),
+        Some(p) => ck!(logn() == 1 && log(0) == p, "[C15.remove] remove_lru invokes the callback exactly once with the departing pair"),
+        None => ck!(logn() == 0, "[C15.silent] no callback when nothing is removed"),
     }
     core::mem::forget(l);
 }
@@ -98,7 +112,7 @@ fn cb_purge() {
     let (mut l, pre) = any_cb_lru();
     kani::cover!(pre.n >= 2, "cb purge: several entries");
     l.purge();
-    assert!(logn() == pre.n, "[C15.purge] purge invokes the callback exactly once per retained entry");
+    ck!(logn() == pre.n, "[C15.purge] purge invokes the callback exactly once per retained entry");
     // every entry appears in the log (with its current value); with logn == n and distinct keys this is a bijection
     let mut i = 0;
     while i < NMAX {
@@ -111,7 +125,7 @@ fn cb_purge() {
                 }
                 j += 1;
             }
-            assert!(hits == 1, "[C15.purge] each purged entry is reported once, with its own key and current value");
+            ck!(hits == 1, "[C15.purge] each purged entry is reported once, with its own key and current value");
         }
         i += 1;
     }
@@ -128,13 +142,13 @@ fn cb_resize() {
     kani::cover!(c >= pre.n, "cb resize: discards nothing");
     l.resize(c);
     let dropped = if pre.n > c { pre.n - c } else { 0 };
-    assert!(logn() == dropped, "[C15.resize] resize invokes the callback exactly once per discarded entry, never otherwise");
+    ck!(logn() == dropped, "[C15.resize] resize invokes the callback exactly once per discarded entry, never otherwise");
     let mut i = 0;
     while i < NMAX {
         if i < dropped {
             // least recently used first
             let idx = pre.n - 1 - i;
-            assert!(log(i) == (pre.k[idx], pre.v[idx]), "[C15.resize][C15.order] discarded entries are reported in the order they leave (LRU first)");
+            ck!(log(i) == (pre.k[idx], pre.v[idx]), "[C15.resize][C15.order] discarded entries are reported in the order they leave (LRU first)");
         }
         i += 1;
     }
@@ -164,7 +178,7 @@ fn cb_reads_are_silent() {
         let _ = l.peek_mut_or_put(k, v);
         let _ = l.contains_or_put(k, v);
     }
-    assert!(logn() == 0, "[C15.silent] reads, *_or_put hits and iteration never invoke the callback");
+    ck!(logn() == 0, "[C15.silent] reads, *_or_put hits and iteration never invoke the callback");
     core::mem::forget(l);
 }
 
@@ -177,9 +191,9 @@ fn cb_ctor_with_hasher() {
     let (a, b, c, d): (u8, u8, u8, u8) = kani::any();
     kani::assume(a != c);
     l.put(a, b);
-    assert!(logn() == 0, "[C15.silent] no callback while there is room");
+    ck!(logn() == 0, "[C15.silent] no callback while there is room");
     l.put(c, d);
-    assert!(logn() == 1 && log(0) == (a, b), "[C15.evict][C15.ctor] a cache built by with_on_evict_cb_and_hasher reports evictions through the callback");
+    ck!(logn() == 1 && log(0) == (a, b), "[C15.evict][C15.ctor] a cache built by with_on_evict_cb_and_hasher reports evictions through the callback");
 }
 
 // the order in which purge reports departing entries must be a function of the cache's history (its view),
@@ -206,11 +220,11 @@ fn cb_purge_order_is_deterministic() {
     // same view, nodes allocated in the opposite order, index slots filled in the opposite order
     let mut y: CbLru = crate::verif_hooks::gen::build_rev(&a, PoisonHasher, Some(RecCb));
     y.purge();
-    assert!(logn() == n1 && n1 == a.n, "[C15.purge][C17.tworun] both runs report every entry once");
+    ck!(logn() == n1 && n1 == a.n, "[C15.purge][C17.tworun] both runs report every entry once");
     let mut i = 0;
     while i < NMAX {
         if i < n1 {
-            assert!(log(i) == first[i], "[C17.tworun][C15.order] the order in which purge reports entries does not depend on index iteration order or allocation addresses");
+            ck!(log(i) == first[i], "[C17.tworun][C15.order] the order in which purge reports entries does not depend on index iteration order or allocation addresses");
         }
         i += 1;
     }
